@@ -160,7 +160,7 @@ def run(chk, tier):
         expect(chk, "R-WIRE", SCAN, ret, want, fn.where(), "Scan(first VCP or MissingCoveragePattern error, Sweep::from_radials(all radials))")
     # ---------------- prerequisites re-checked here
     c09.from_radials(chk, prog)
-    ev = sym.Evaluator(prog, models=cm.MODELS)
+    ev = cm.evaluator(prog)
     t, f2 = eval_or_blind(chk, ev, "VN", INTO_RADIAL)
     if t is not None:
         c07.report_radial(chk, INTO_RADIAL, t, c07.radial_spec(), f2.where())
